@@ -432,7 +432,7 @@ def constants_derivation(index):
 def replay_client(model, ob):
   import json
   from pyvc.runner import run_native
-  rc, out, err = run_native('replay/client_native.py', [json.dumps({'clause': ob.label})], timeout=600)
+  rc, out, err = run_native('replay/relay_native.py', [json.dumps({'clause': ob.label})], timeout=900)
   for line in out.splitlines():
     if line.startswith('REPLAY-RESULT '):
       return json.loads(line[len('REPLAY-RESULT '):])
@@ -456,22 +456,34 @@ def all_units(pid=None):
 def _all_units():
   F = FACTORY
   return [
-    Unit('client.takeSomeFromQueue', u_take, [F + '.takeSomeFromQueue'], expect_covers=['take/returns'], replay=replay_client),
-    Unit('client.enqueue', u_enqueue, [F + '.enqueue', F + '.enqueue_from_left'], expect_covers=['enqueue/returns']),
+    Unit('client.takeSomeFromQueue', u_take, [F + '.takeSomeFromQueue'], expect_covers=['take/returns'], replay=replay_client,
+         native_clauses=['C07/takeSomeFromQueue/prefix']),
+    Unit('client.enqueue', u_enqueue, [F + '.enqueue', F + '.enqueue_from_left'], expect_covers=['enqueue/returns'], replay=replay_client,
+         native_clauses=['C07/enqueue/appends', 'C07/enqueue_from_left/prepends']),
     Unit('client.sendDatapoint', u_send_datapoint, [F + '.sendDatapoint', F + '.scheduleSend', F + '.queueFullCallback'],
-         expect_covers=['sendDatapoint/returns'], replay=replay_client),
-    Unit('client.sendHighPriorityDatapoint', u_send_high_priority, [F + '.sendHighPriorityDatapoint'], expect_covers=['sendHP/returns']),
-    Unit('client.scheduleSend', u_schedule_send, [F + '.scheduleSend'], expect_covers=['scheduleSend/returns']),
+         expect_covers=['sendDatapoint/returns'], replay=replay_client,
+         native_clauses=['C07/sendDatapoint/bound', 'C07/sendDatapoint/drop_only_at_limit', 'C07/sendDatapoint/drop_counted',
+                         'C07/sendDatapoint/appended_or_untouched', 'C07/sendDatapoint/no_raise', 'C09/sendDatapoint/I_bp_relay']),
+    Unit('client.sendHighPriorityDatapoint', u_send_high_priority, [F + '.sendHighPriorityDatapoint'], expect_covers=['sendHP/returns'], replay=replay_client,
+         native_clauses=['C07/sendHighPriorityDatapoint/jumps_the_queue_without_disturbing_it']),
+    Unit('client.scheduleSend', u_schedule_send, [F + '.scheduleSend'], expect_covers=['scheduleSend/returns'], replay=replay_client,
+         native_clauses=['C07/scheduleSend/timer_runs_sendQueued', 'C09/scheduleSend/a_send_is_pending_afterwards']),
     Unit('client.protocol.sendQueued', u_proto_send_queued,
          [PROTO + '.sendQueued', PROTO + '.sendDatapointsNow', F + '.checkQueue', F + '.queueSpaceCallback', PICKLE_P + '._sendDatapointsNow'],
-         expect_covers=['sendQueued/returns', 'sendQueued/idle', 'sendQueued/sent'], replay=replay_client),
-    Unit('client.queueSpaceCallback', u_queue_space_callback, [F + '.queueSpaceCallback'], expect_covers=['queueSpaceCallback/returns']),
+         expect_covers=['sendQueued/returns', 'sendQueued/idle', 'sendQueued/sent'], replay=replay_client,
+         native_clauses=['C07/sendQueued/written_is_the_queue_prefix', 'C07/sendQueued/rest_is_rescheduled', 'C07/sendQueued/no_raise',
+                         'C09/sendQueued/I_bp_relay']),
+    Unit('client.queueSpaceCallback', u_queue_space_callback, [F + '.queueSpaceCallback'], expect_covers=['queueSpaceCallback/returns'], replay=replay_client,
+         native_clauses=['C09/queueSpaceCallback/rearm']),
     Unit('client.queueFullCallback', u_queue_full_callback, [F + '.queueFullCallback'], expect_covers=['queueFullCallback/returns']),
-    Unit('client.checkQueue', u_check_queue, [F + '.checkQueue'], expect_covers=['checkQueue/returns']),
+    Unit('client.checkQueue', u_check_queue, [F + '.checkQueue'], expect_covers=['checkQueue/returns'], replay=replay_client,
+         native_clauses=['C07/checkQueue/queueEmpty_fires_iff_empty', 'C07/checkQueue/no_AlreadyCalledError']),
     Unit('client.resume_pause', u_resume_pause, [PROTO + '.resumeProducing', PROTO + '.pauseProducing'],
-         expect_covers=['resumeProducing/returns', 'pauseProducing/returns'], replay=replay_client),
+         expect_covers=['resumeProducing/returns', 'pauseProducing/returns'], replay=replay_client,
+         native_clauses=['C09/resumeProducing/I_bp_relay']),
     Unit('client.destinationDown', u_destination_down, [F + '.destinationDown'],
-         expect_covers=['destinationDown/returns', 'destinationDown/removed', 'destinationDown/reinject_one'], replay=replay_client),
+         expect_covers=['destinationDown/returns', 'destinationDown/removed', 'destinationDown/reinject_one'], replay=replay_client,
+         native_clauses=['C07/destinationDown/queue_kept_otherwise', 'C07/destinationDown/reinjects_in_order', 'C07/destinationDown/no_raise']),
     Unit('client.line._sendDatapointsNow', u_line_send_now, [LINE_P + '._sendDatapointsNow'],
          expect_covers=['line/returns', 'line/one_datapoint']),
     Unit('client.pickle._sendDatapointsNow', u_pickle_send_now, [PICKLE_P + '._sendDatapointsNow'], expect_covers=['pickle/returns']),
